@@ -103,6 +103,34 @@ NOTES = {
  'C18_7': 'missed at first; body stream read / moved / probed as JSON before the first access to the form',
  'C18_8': 'missed at first; two threads decoding a 4-pair and a 300 / 1100-field query or form, every single-preemption schedule of the small one',
  'C20_7': 'missed at first; 1-3 earlier requests for the same error on the same application with another Accept (HTML then JSON and the reverse)',
+ # round 5
+ 'C01_10': 'missed at first; the registration history is now replayed on an application with requests served after EVERY step; grid: a more specific rule registered after the path was answered through a general one',
+ 'C02_9': 'missed at first; route hooks (per-prefix 404 handlers, on_route hooks) installed on prefixes of the rules at any step',
+ 'C02_10': 'missed at first; two threads editing the method table of one route (add / overwrite / remove), every single-preemption schedule of either thread',
+ 'C03_9': 'missed at first; iterables / files whose close() raises; start_response must have been called exactly once (a second call with exc_info was tolerated before)',
+ 'C03_10': 'missed at first; malformed string statuses in the pool - which exposed a genuine defect of the unchanged tree (`0200 OK`, `+200 OK` reached the server; repaired, /repo 23cc9f4)',
+ 'C04_9': 'missed at first; wsgi.input as an unbuffered io.RawIOBase stream (readinto, short reads) that holds more than the declared length',
+ 'C04_10': 'missed at first; between the two reads of request.body the handler re-assigns CONTENT_TYPE / a re-spelled CONTENT_LENGTH / a header / the query string through request[...]',
+ 'C05_9': 'missed at first; quoted-string chunk extensions (escaped quotes, separators inside the quotes) as generator and grid',
+ 'C05_10': 'missed at first; chunk-count dimension: 1-5000 one- and two-byte chunks',
+ 'C06_9': 'missed at first; bodies of 50-2500 short parts (one read buffer holds hundreds of sections)',
+ 'C08_10': 'missed at first; warm-up dimension: 9 / 17 sequential requests of one kind, then the other thread pre-empted at every step while that kind is served again (12 ordered pairs of handlers registered next to each other)',
+ 'C08_11': 'missed at first; `qs_reassign` kind (handler re-assigns QUERY_STRING / Cookie through request[...] after reading them) with single- and two-preemption schedules',
+ 'C09_9': 'missed at first; `neg_cl` kind (a different negative Content-Length per request) and a third census window on allocated memory blocks (strings / registry entries are invisible to the gc census)',
+ 'C09_10': 'missed at first; the site now has an on_route hook on a non-root rule and a per-prefix 404 handler (kinds `api_404`, `api_item`)',
+ 'C10_9': 'missed at first; `hugepath` kind (paths of 8200-16200 characters)',
+ 'C11_9': 'missed at first; verbs spelled in lower / mixed case in add(); one lower-case duplicate add in the alphabet of the bounded histories',
+ 'C12_9': 'missed at first; a fifth of the cases and a fixed grid are served on a worker thread (not the thread that imported the framework)',
+ 'C13_9': 'missed at first; trailer sections of 0-40000 lines after the last chunk: the stream may be pulled at most limit + one buffer beyond the end of the body',
+ 'C13_10': 'missed at first; a chunk-size line with a minus sign in front of any chunk (an over-limit body must still be refused)',
+ 'C15_9': 'missed at first; cookies set under statuses 200-500 (incl. 204, 304), on the application response and on returned / raised response objects',
+ 'C15_10': 'missed at first; the Cookie header of a request object that was already asked is replaced through request[...] (tampered variants are presented to a request that has just read the genuine cookie)',
+ 'C16_9': 'missed at first; directories literally called ~, ~/static, $HOME, ~user in the working directory while HOME points at a decoy tree',
+ 'C17_10': 'missed at first; a first range element without a dash names no range: 416, never a 206 (was judged leniently)',
+ 'C18_9': 'missed at first; form bodies delivered in short reads of 1-40 bytes',
+ 'C19_9': 'missed at first; where the router matches a path the reference does not, the router\'s own assignment is round-tripped; signed / blank / underscore number spellings behind another wildcard',
+ 'C19_10': 'missed at first; sibling rules (same wildcard position with / without a converting filter) registered before the rule under test',
+ 'C20_10': 'missed at first; URL-shaped paths (`/http://[x`, `//host/..`, fragments) as the whole path (`404-root` kind)',
 }
 
 
